@@ -20,6 +20,15 @@ def setup_imports():
     import torch
     torch.set_num_threads(1)
     torch.set_default_dtype(torch.float32)
+    # everything torch imports lazily is imported now, outside any per-case alarm (an alarm that fires in the middle of
+    # `import sympy` inside torch.autograd leaves a half-initialised module behind and every later case crashes)
+    import sympy  # noqa
+    import sympy.logic  # noqa
+    with torch.enable_grad():
+        _x = torch.ones(2, dtype=torch.float64, requires_grad=True)
+        _y = (_x * _x).sum()
+        (_g,) = torch.autograd.grad(_y, _x, create_graph=True)
+        torch.autograd.grad(_g.sum(), _x, allow_unused=True)
     import torchsde  # noqa
     got = os.path.realpath(os.path.dirname(os.path.dirname(torchsde.__file__)))
     if got != os.path.realpath(REPO):
